@@ -183,7 +183,11 @@ func genOps(r *simcore.Rand, k Knobs, nnodes int, tier string, crash bool) []Op 
 		case 3:
 			ops = append(ops, Op{Kind: "setfinal", A: a})
 		case 4:
-			ops = append(ops, Op{Kind: "reopen"})
+			o := Op{Kind: "reopen"}
+			if crash && r.Bool(0.4) {
+				o.B = 1 // reopen with snapshots switched on / off
+			}
+			ops = append(ops, o)
 		case 5:
 			ops = append(ops, Op{Kind: "freeze"})
 		case 6:
